@@ -1227,7 +1227,8 @@ class VLE(Equilibrium, phases='lg'):
                     liquid_mol[index] -= vaporised
                 else:
                     f = 0
-        if f == 0. or f == 1.:
+        if f == 0. or f == 1. or abs(self.mixture.xH(self._phase_data, T, P) - H) > self.H_hat_tol * F_mass:
+            # The correction above is exact only when the enthalpy is linear in the flows (not so for equation-of-state mixtures)
             self._T = thermal_condition.T = self.mixture.xsolve_T_at_HP(
                 self._phase_data, H, T, P
             )
